@@ -1078,6 +1078,7 @@ M.contract(P_ATC + ':ActionToCheckExecutor._do_execute', inline=True,
 from exactly_lib.impls.instructions.assert_.process_output.impl.exit_code import getter_from_atc
 
 M.contract('exactly_lib.impls.instructions.assert_.process_output.impl.exit_code.getter_from_atc:_ExitCodeGetter._get_exit_code',
+           inline=True,        # (_ExitCodeGetter.get, C10b_assertions, states the round trip for the whole model)
            # failing open()/read() of result/exit-code are environmental faults that the file model does not produce
            cover=('raise HardErrorException',),
            params=dict(self=Inst(getter_from_atc._ExitCodeGetter, _tcds=Iface(TcdsI), _sds=Iface(SdsI))),
